@@ -518,7 +518,7 @@ impl CanonicalRequest {
 //@ before 1 `let mut found_host = false;`
     let ghost signed = params.signed();
     let ghost hv = self.hview();
-    proof { assert(self.carrier_selected(params)); }
+    proof { assert(self.carrier_selected(params)); } //# C19 name=one_carrier_selected_after_extraction
 //@ loop 1 iter it1
         invariant_except_break
             !found_host,
@@ -531,19 +531,19 @@ impl CanonicalRequest {
         ensures
             !found_host ==> !(signed.contains(HOST()) || signed.contains(AUTHORITY())), //# C02 C05 name=host_refusal_only_when_neither_is_signed
 //@ before 1 `if header == "host" || header == ":authority" {`
-            proof { lemma_lit_host(); lemma_lit_authority(); assert(str_bytes(header@) == signed[it1.index@]); }
+            proof { lemma_lit_host(); lemma_lit_authority(); assert(str_bytes(header@) == signed[it1.index@]); } //# C05 name=requirement_loop_hint
 //@ before 1 `return Err(SignatureError::SignatureDoesNotMatch(Some(MSG_HOST_AUTHORITY_MUST_BE_SIGNED.to_string())));`
             proof {
                 self.lemma_not_acceptable(params, signed_header_requirements.always_spec(), signed_header_requirements.if_in_request_spec(), signed_header_requirements.prefixes_spec());
             }
 //@ before 1 `return Err(SignatureError::SignatureDoesNotMatch(Some(format!(`
                 proof {
-                    assert(!signed.contains(lower(signed_header_requirements.always_spec()[it2.index@])));
+                    assert(!signed.contains(lower(signed_header_requirements.always_spec()[it2.index@]))); //# C05 name=requirement_loop_hint
                     self.lemma_not_acceptable(params, signed_header_requirements.always_spec(), signed_header_requirements.if_in_request_spec(), signed_header_requirements.prefixes_spec());
                 }
 //@ before 2 `return Err(SignatureError::SignatureDoesNotMatch(Some(format!(`
                 proof {
-                    assert(hv.contains_key(lower(signed_header_requirements.if_in_request_spec()[it3.index@])) && !signed.contains(lower(signed_header_requirements.if_in_request_spec()[it3.index@])));
+                    assert(hv.contains_key(lower(signed_header_requirements.if_in_request_spec()[it3.index@])) && !signed.contains(lower(signed_header_requirements.if_in_request_spec()[it3.index@]))); //# C05 name=requirement_loop_hint
                     self.lemma_not_acceptable(params, signed_header_requirements.always_spec(), signed_header_requirements.if_in_request_spec(), signed_header_requirements.prefixes_spec());
                 }
 //@ before 3 `return Err(SignatureError::SignatureDoesNotMatch(Some(format!(`
@@ -551,9 +551,9 @@ impl CanonicalRequest {
                         let k = str_bytes(http_header@);
                         lemma_hmap_contains(self.headers@, *http_header);
                         lemma_keys_exact(it5.seq(), self.headers@.dom());
-                        assert(self.headers@.contains_key(*it5.seq()[it5.index@]));
-                        assert(hv.contains_key(k) && pfx.is_prefix_of(k) && !signed.contains(k));
-                        assert(hv.contains_key(k) && lower(signed_header_requirements.prefixes_spec()[it4.index@]).is_prefix_of(k));
+                        assert(self.headers@.contains_key(*it5.seq()[it5.index@])); //# C05 name=requirement_loop_hint
+                        assert(hv.contains_key(k) && pfx.is_prefix_of(k) && !signed.contains(k)); //# C05 name=requirement_loop_hint
+                        assert(hv.contains_key(k) && lower(signed_header_requirements.prefixes_spec()[it4.index@]).is_prefix_of(k)); //# C05 name=requirement_loop_hint
                         self.lemma_not_acceptable(params, signed_header_requirements.always_spec(), signed_header_requirements.if_in_request_spec(), signed_header_requirements.prefixes_spec());
                     }
 //@ loop 2 iter it2
@@ -584,7 +584,7 @@ impl CanonicalRequest {
             forall|i: int, k: Seq<u8>| 0 <= i < it4.index@ && #[trigger] hv.contains_key(k) && lower(#[trigger] signed_header_requirements.prefixes_spec()[i]).is_prefix_of(k) ==> signed.contains(k), //# C05 C18 name=prefix_requirements_prefix_checked
 //@ before 1 `for http_header in self.headers.keys() {`
             let ghost pfx = str_bytes(header_lower@);
-            proof { lemma_string_key_model(); assert(pfx == lower(signed_header_requirements.prefixes_spec()[it4.index@])); }
+            proof { lemma_string_key_model(); assert(pfx == lower(signed_header_requirements.prefixes_spec()[it4.index@])); } //# C05 name=requirement_loop_hint
 //@ loop 5 iter it5
                 invariant
                     self.carrier_selected(params),
@@ -599,7 +599,7 @@ impl CanonicalRequest {
                 assert forall|k: Seq<u8>| #[trigger] hv.contains_key(k) && pfx.is_prefix_of(k) implies signed.contains(k) by {
                     let ks = string_of_bytes(k);
                     self.lemma_hview_key(k);
-                    assert(self.headers@.contains_key(ks) && str_bytes(ks@) == k);
+                    assert(self.headers@.contains_key(ks) && str_bytes(ks@) == k); //# C05 name=requirement_loop_hint
                 }
             }
 //@ end
